@@ -33,7 +33,18 @@ func (this *zzCanaryAlloc) Read(in *io.DataInputX) {
 	}
 }
 func (this *zzCanaryAlloc) Write(o *io.DataOutputX) { o.WriteInt(int32(len(this.xs))) }
-`, Expect: []core.CanaryExpect{{Rule: "C04.alloc", Sub: "zzCanaryAlloc"}, {Rule: "C04.terminate", Sub: "zzCanaryAlloc"}}}}
+
+type zzCanaryTail struct{ a, b int32 }
+
+// decides by the bytes left on the stream it was handed whether the tail is there
+func (this *zzCanaryTail) Read(in *io.DataInputX) {
+	this.a = in.ReadInt()
+	if in.Available() > 0 {
+		this.b = in.ReadInt()
+	}
+}
+func (this *zzCanaryTail) Write(o *io.DataOutputX) { o.WriteInt(this.a); o.WriteInt(this.b) }
+`, Expect: []core.CanaryExpect{{Rule: "C04.alloc", Sub: "zzCanaryAlloc"}, {Rule: "C04.terminate", Sub: "zzCanaryAlloc"}, {Rule: "C04.own-extent", Sub: "zzCanaryTail"}}}}
 }
 
 var wideKinds = map[string]bool{"ReadInt": true, "ReadInt3": true, "ReadDecimal": true, "ReadLong": true, "ReadLong5": true, "ReadUnsignedInt": true,
@@ -51,6 +62,8 @@ func runC04(p *core.Program, r *core.Report) {
 	r.Rule("C04.no-swallow", "no decoder recovers from a decoding panic and carries on (a truncated or corrupted record is never skipped silently)", 1)
 	r.Rule("C04.limit", "size-limited reads compare the announced length with the caller's limit before any byte of the payload is read or allocated", 1)
 	r.Rule("C04.unknown-tag", "unknown type codes end in a (recoverable) panic, never in a fabricated object", 4)
+	r.Rule("C04.own-extent", "a decoder asks how much input is left only of a stream it built itself over a length-delimited blob; never of the stream it was handed, whose remaining bytes are the next record's (or missing): a truncated message must fail, not decode as an older, shorter version", 0)
+	c04OwnExtent(p, r)
 	r.Rule("C04.no-early-stop", "a loop driven by a decoded count is not cut short by looking at how much input is left (a truncated record must fail, not decode as a shorter one)", 1)
 	c04NoEarlyStop(p, r)
 
@@ -341,6 +354,7 @@ func c04ShortRead(p *core.Program, r *core.Report) {
 		r.Undec("C04.shortread", c, "-", "not found")
 		return
 	}
+	c04FillLoop(p, r, fi, c)
 	rn := recvName(fi)
 	norm := func(e ast.Node) string {
 		switch v := e.(type) {
@@ -932,4 +946,221 @@ func c04NoEarlyStop(p *core.Program, r *core.Report) {
 			fileProbs(r, "C04.no-early-stop", core.FuncName(fi.Obj), p.Pos(fi.Decl.Pos()), uniq(probs), "element loops run to their decoded count")
 		}
 	}
+}
+
+// c04OwnExtent: every X.Available() in a decoder is asked of a stream whose extent the decoder knows —
+// a local built by io.NewDataInputX(<bytes>) — or of a stream parameter that every caller in the
+// module fills with such a local. Asking the stream the decoder was handed lets a message cut off
+// before an optional tail pass for the older format.
+func c04OwnExtent(p *core.Program, r *core.Report) {
+	x := wire.NewExtractor(p)
+	inScope := func(fi *core.FuncInfo) bool {
+		rel := core.RelPkg(fi.Pkg.PkgPath)
+		return fi.Decl.Body != nil && strings.HasPrefix(rel, "lang/")
+	}
+	// localNested: is the stream expression a local built over bytes in this function?
+	localNested := func(fi *core.FuncInfo, e ast.Expr) bool {
+		info := fi.Pkg.TypesInfo
+		id, ok := ast.Unparen(e).(*ast.Ident)
+		if !ok {
+			return false
+		}
+		obj := info.ObjectOf(id)
+		built, other := 0, 0
+		ast.Inspect(fi.Decl.Body, func(n ast.Node) bool {
+			switch v := n.(type) {
+			case *ast.AssignStmt:
+				if len(v.Lhs) != len(v.Rhs) {
+					return true
+				}
+				for i, l := range v.Lhs {
+					if lid, ok := l.(*ast.Ident); ok && info.ObjectOf(lid) == obj {
+						if call, ok := ast.Unparen(v.Rhs[i]).(*ast.CallExpr); ok && isCallTo(info, call, core.ModPath+"/io", "NewDataInputX") {
+							built++
+						} else {
+							other++
+						}
+					}
+				}
+			case *ast.ValueSpec:
+				for i, nm := range v.Names {
+					if info.Defs[nm] == obj && i < len(v.Values) {
+						if call, ok := ast.Unparen(v.Values[i]).(*ast.CallExpr); ok && isCallTo(info, call, core.ModPath+"/io", "NewDataInputX") {
+							built++
+						} else {
+							other++
+						}
+					}
+				}
+			}
+			return true
+		})
+		return built > 0 && other == 0
+	}
+	for _, fi := range p.Funcs {
+		if !inScope(fi) {
+			continue
+		}
+		info := fi.Pkg.TypesInfo
+		var probs []string
+		asks := 0
+		ast.Inspect(fi.Decl.Body, func(n ast.Node) bool {
+			call, ok := n.(*ast.CallExpr)
+			if !ok {
+				return true
+			}
+			sel, ok := call.Fun.(*ast.SelectorExpr)
+			if !ok || sel.Sel.Name != "Available" {
+				return true
+			}
+			if tv, ok := info.Types[sel.X]; !ok || !x.IsStream(tv.Type) {
+				return true
+			}
+			asks++
+			if localNested(fi, sel.X) {
+				return true
+			}
+			// a stream parameter: fine when every caller hands in a stream it built over a blob
+			if id, ok := ast.Unparen(sel.X).(*ast.Ident); ok {
+				if pi := paramIndexOf(fi, info.ObjectOf(id)); pi >= 0 {
+					callers, good := 0, 0
+					for _, cf := range p.Funcs {
+						if cf.Decl.Body == nil {
+							continue
+						}
+						cinfo := cf.Pkg.TypesInfo
+						ast.Inspect(cf.Decl.Body, func(m ast.Node) bool {
+							cc, ok := m.(*ast.CallExpr)
+							if !ok || pi >= len(cc.Args) {
+								return true
+							}
+							var cid *ast.Ident
+							switch f := ast.Unparen(cc.Fun).(type) {
+							case *ast.Ident:
+								cid = f
+							case *ast.SelectorExpr:
+								cid = f.Sel
+							}
+							if cid == nil || cinfo.Uses[cid] != types.Object(fi.Obj) {
+								return true
+							}
+							callers++
+							if localNested(cf, cc.Args[pi]) {
+								good++
+							}
+							return true
+						})
+					}
+					if callers > 0 && callers == good {
+						return true
+					}
+				}
+			}
+			probs = append(probs, fmt.Sprintf("%s.Available() at %s is asked of the stream the decoder was handed: what is left there belongs to the next record, and a message cut off before this point decodes as the older, shorter format", types.ExprString(sel.X), p.Pos(call.Pos())))
+			return true
+		})
+		if asks > 0 {
+			fileProbs(r, "C04.own-extent", core.FuncName(fi.Obj), p.Pos(fi.Decl.Pos()), probs, "Available() is asked only of a stream built over a length-delimited blob")
+		}
+	}
+}
+
+// paramIndexOf: the position of obj among fi's parameters, or -1.
+func paramIndexOf(fi *core.FuncInfo, obj types.Object) int {
+	i := 0
+	for _, f := range fi.Decl.Type.Params.List {
+		for _, n := range f.Names {
+			if fi.Pkg.TypesInfo.Defs[n] == obj {
+				return i
+			}
+			i++
+		}
+		if len(f.Names) == 0 {
+			i++
+		}
+	}
+	return -1
+}
+
+// c04FillLoop: a loop in ReadBytes that fills the buffer from a Read call goes round again only when
+// that Read reported no error: every path through its body on which the error is non-nil (or was
+// never looked at) ends in panic or return. A peer that closes mid-value makes Read return (0, EOF)
+// for ever — a loop that carries on with an error in hand never terminates.
+func c04FillLoop(p *core.Program, r *core.Report, fi *core.FuncInfo, c string) {
+	info := fi.Pkg.TypesInfo
+	ast.Inspect(fi.Decl.Body, func(n ast.Node) bool {
+		loop, ok := n.(*ast.ForStmt)
+		if !ok {
+			return true
+		}
+		// the error variable of a Read call in the loop body
+		var errObj types.Object
+		ast.Inspect(loop.Body, func(m ast.Node) bool {
+			if as, ok := m.(*ast.AssignStmt); ok && len(as.Lhs) == 2 && len(as.Rhs) == 1 {
+				if call, ok := ast.Unparen(as.Rhs[0]).(*ast.CallExpr); ok {
+					if sel, ok := call.Fun.(*ast.SelectorExpr); ok && sel.Sel.Name == "Read" {
+						if id, ok := as.Lhs[1].(*ast.Ident); ok && id.Name != "_" {
+							errObj = info.ObjectOf(id)
+						} else {
+							errObj = nil
+						}
+						if errObj == nil {
+							r.Viol("C04.shortread", c+" fill loop", p.Pos(as.Pos()), "the error of the Read that fills the buffer is discarded: a closed connection makes the loop spin for ever")
+						}
+					}
+				}
+			}
+			return true
+		})
+		if errObj == nil {
+			return true
+		}
+		norm := func(e ast.Expr) string {
+			return stripSpaces(types.ExprString(e))
+		}
+		errName := errObj.Name()
+		ps, over := paths.Enumerate(loop.Body, paths.Config{Info: info,
+			Cond: func(cnd ast.Expr, v bool) *paths.Event {
+				return &paths.Event{Kind: "COND", Arg: condKey(info, norm, cnd, v), Pos: cnd.Pos()}
+			},
+			Classify: func(m ast.Node) []paths.Event {
+				var out []paths.Event
+				ast.Inspect(m, func(k ast.Node) bool {
+					if call, ok := k.(*ast.CallExpr); ok {
+						if sel, ok := call.Fun.(*ast.SelectorExpr); ok && sel.Sel.Name == "Read" {
+							out = append(out, paths.Event{Kind: "FILL", Pos: call.Pos()})
+						}
+					}
+					return true
+				})
+				return out
+			}})
+		if over {
+			r.Undec("C04.shortread", c+" fill loop", p.Pos(loop.Pos()), "too many paths")
+			return true
+		}
+		bad := ""
+		for _, pa := range ps {
+			if !pa.Consistent() || !pa.Has("FILL") {
+				continue
+			}
+			last := pa[len(pa)-1].Kind
+			if last == "PANIC" || last == "RET" {
+				continue
+			}
+			// the path goes round again: it must have established err == nil after the fill
+			fi := pa.Index("FILL")
+			okNil := false
+			for _, e := range pa[fi:] {
+				if e.Kind == "COND" && (e.Arg == errName+"==nil=true") {
+					okNil = true
+				}
+			}
+			if !okNil && bad == "" {
+				bad = "a path through the fill loop carries on although Read returned an error (or without looking at it): " + pa.String() + " — a peer that closes mid-value makes Read return (0, EOF) for ever"
+			}
+		}
+		r.Check(bad == "", "C04.shortread", c+" fill loop", p.Pos(loop.Pos()), "the loop goes round again only after Read reported no error", bad)
+		return true
+	})
 }
